@@ -542,6 +542,60 @@ func (e *Engine) ownProof() *UnitResult {
 		}
 		add(label, a.pos, ok, why)
 	}
+	// package-level variables that are assigned after initialisation
+	var gnames []string
+	for n := range e.spkg.Members {
+		gnames = append(gnames, n)
+	}
+	sort.Strings(gnames)
+	for _, n := range gnames {
+		g, ok := e.spkg.Members[n].(*ssa.Global)
+		if !ok || e.immutableGlobal(g) || strings.HasPrefix(n, "init$") {
+			continue
+		}
+		type gacc struct {
+			fn    *ssa.Function
+			write bool
+		}
+		var accs []gacc
+		for _, fn := range e.funcs {
+			for _, b := range fn.Blocks {
+				for _, in := range b.Instrs {
+					switch x := in.(type) {
+					case *ssa.Store:
+						if x.Addr == g {
+							accs = append(accs, gacc{fn, true})
+						}
+					case *ssa.UnOp:
+						if x.X == g {
+							accs = append(accs, gacc{fn, false})
+						}
+					}
+				}
+			}
+		}
+		owner, okG, why := "", true, ""
+		for _, a := range accs {
+			rs := roles[a.fn]
+			if len(rs) == 0 {
+				// exported entry points that are not declared roots (SetLogger ...): any goroutine of the user
+				rs = map[string]bool{"api": true}
+			}
+			for r := range rs {
+				switch {
+				case multi[r] && a.write:
+					okG, why = false, fmt.Sprintf("written by %s, which any number of goroutines may run at once, with no lock or atomic", e.names[a.fn])
+				case owner == "":
+					owner = r
+				case owner != r:
+					if why == "" {
+						okG, why = false, fmt.Sprintf("accessed by roles %s and %s (e.g. %s) with no lock or atomic", owner, r, e.names[a.fn])
+					}
+				}
+			}
+		}
+		add("package variable "+n+" is not shared between goroutine roles without synchronisation", e.pos(g.Pos()), okG, "package variable "+n+": "+why)
+	}
 	for _, od := range e.spec.Owners {
 		if od.Sync != "" {
 			vc.note("ownership: hand-off of " + od.Field + " is trusted (" + od.Sync + ")")
@@ -598,4 +652,49 @@ func spawnsLast(e *Engine, fn *ssa.Function, tb *ThreadDecl) (bool, string) {
 		return false, "no go statement starting " + tb.Name
 	}
 	return true, ""
+}
+
+// modelProof is the pseudo unit model:errors: structural facts about /repo that
+// the engine's error-tree model relies on. The model treats every error type of
+// the package as a leaf of the tree that errors.As / errors.Is walk; wrapping is
+// done only by fmt.Errorf(%w) and errors.Join. A package error type that declares
+// Unwrap, Is or As changes what errors.As finds without any function body
+// changing, so it is an obligation that none does.
+func (e *Engine) modelProof() *UnitResult {
+	name := "model:errors"
+	vc := newVC(e, name)
+	res := &UnitResult{Name: name, VC: vc, HasSpec: true}
+	vc.coverSt = "sat"
+	errI := types.Universe.Lookup("error").Type().Underlying().(*types.Interface)
+	seen := map[string]bool{}
+	for _, T := range e.implementers(errI) {
+		base := T
+		if p, ok := T.(*types.Pointer); ok {
+			base = p.Elem()
+		}
+		n, ok := base.(*types.Named)
+		if !ok || n.Obj().Pkg() == nil || n.Obj().Pkg().Path() != pkgPath || seen[n.Obj().Name()] {
+			continue
+		}
+		seen[n.Obj().Name()] = true
+		bad := ""
+		for _, recv := range []types.Type{n, types.NewPointer(n)} {
+			ms := types.NewMethodSet(recv)
+			for _, mn := range []string{"Unwrap", "Is", "As"} {
+				if ms.Lookup(n.Obj().Pkg(), mn) != nil {
+					bad = mn
+				}
+			}
+		}
+		o := &Oblig{Name: fmt.Sprintf("%s#model[error type %s is a leaf of error trees (declares no Unwrap/Is/As)]", name, n.Obj().Name()), Kind: "model", Unit: name, Cand: -1, Pos: e.pos(n.Obj().Pos()), Solver: "type-analysis(static)"}
+		if bad == "" {
+			o.Status = "unsat"
+		} else {
+			o.Status, o.Note = "sat", fmt.Sprintf("%s declares %s: errors.As/errors.Is see through or around it, which the error-tree model of the contracts (hasType, firstOf, errContains) does not describe", n.Obj().Name(), bad)
+		}
+		vc.obligs = append(vc.obligs, o)
+	}
+	sort.SliceStable(vc.obligs, func(i, j int) bool { return vc.obligs[i].Name < vc.obligs[j].Name })
+	vc.note("error-tree model: package error types are leaves; wrapping only by fmt.Errorf(%w) and errors.Join (obligations of model:errors)")
+	return res
 }
